@@ -649,12 +649,10 @@ impl<'a, C: Crypto + 'a> CaseP<'a, C> {
         &mut self,
         crypto: &C,
         fabric: &Fabric,
+        sigma3_key: CanonAeadKeyRef<'_>,
         signature: CanonPkcSignatureRef<'_>,
         out: &mut [u8],
     ) -> Result<usize, Error> {
-        let mut sigma3_key = AEAD_KEY_ZEROED;
-        self.compute_sigma3_key(crypto, fabric.ipk().op_key(), &mut sigma3_key)?;
-
         let mut tw = WriteBuf::new(out);
 
         tw.start_struct(&TLVTag::Anonymous)?;
@@ -671,7 +669,7 @@ impl<'a, C: Crypto + 'a> CaseP<'a, C> {
         let mut cypher = crypto.aead()?;
 
         cypher.encrypt_in_place(
-            sigma3_key.reference(),
+            sigma3_key,
             SIGMA3_NONCE,
             &[],
             cipher_text,
@@ -717,7 +715,7 @@ impl<'a, C: Crypto + 'a> CaseP<'a, C> {
     /// # Returns
     /// - `Ok(())` - If the Sigma3 key was successfully derived
     /// - `Err(Error)` - If an error occurred during the process
-    fn compute_sigma3_key(
+    pub fn compute_sigma3_key(
         &mut self,
         crypto: &C,
         ipk: CanonAeadKeyRef<'_>,
